@@ -10,6 +10,10 @@
 (* naming x format class x append) with every sequence of <= MaxOps         *)
 (* operation classes; each behaviour is instantiated on the real code with  *)
 (* fixed representatives and seeded random members of the classes.          *)
+(* A second catalogue (MCRobust_std.cfg) varies the OUTPUT class instead:   *)
+(* default channel = file / stdout / stderr / file+writer / writer x write   *)
+(* mode, with operation classes that include records whose message logs     *)
+(* itself when it is formatted (recursive logging).                         *)
 (***************************************************************************)
 EXTENDS Naturals, Sequences, TLC
 
@@ -17,15 +21,16 @@ CONSTANTS DirCls,     \* what the log directory holds before the logger starts
           Namings,    \* naming schemes
           FmtCls,     \* classes of custom timestamp formats (by length / content)
           OpCls,      \* operation classes (op + argument class)
+          OutCls,     \* where the default channel goes (file / stdout / stderr / both / a writer) x write mode
           MaxOps, GenHist
 
-VARIABLES dirc, naming, fmtc, append, ops, outcome, poisoned, hist
-vars == <<dirc, naming, fmtc, append, ops, outcome, poisoned, hist>>
+VARIABLES dirc, naming, fmtc, append, outc, ops, outcome, poisoned, hist
+vars == <<dirc, naming, fmtc, append, outc, ops, outcome, poisoned, hist>>
 
 Outcomes == {"ok", "error_result", "reported"}
 Custom(n) == n \in {"TsC", "TsCD"}
 
-Init == /\ dirc \in DirCls /\ naming \in Namings /\ append \in BOOLEAN
+Init == /\ dirc \in DirCls /\ naming \in Namings /\ append \in BOOLEAN /\ outc \in OutCls
         /\ fmtc \in (IF Custom(naming) THEN FmtCls ELSE {"std"})
         /\ ops = 0 /\ outcome = "ok" /\ poisoned = FALSE /\ hist = <<>>
 
@@ -35,7 +40,7 @@ Apply(o) == /\ ops < MaxOps /\ ~poisoned
             /\ outcome' \in Outcomes
             /\ poisoned' = FALSE
             /\ hist' = IF GenHist THEN Append(hist, o) ELSE hist
-            /\ UNCHANGED <<dirc, naming, fmtc, append>>
+            /\ UNCHANGED <<dirc, naming, fmtc, append, outc>>
 
 Next == \E o \in OpCls : Apply(o)
 Spec == Init /\ [][Next]_vars
